@@ -32,6 +32,7 @@ struct ApiOpts {
 	bool everyVertexUsed = true;
 	bool segments = false;           // FO4/FO76: random segmentation
 	bool partitions = false;         // LE/SSE/FO3: random partition assignment
+	bool texturing = false;          // OB/FO3: shapes also get a NiTexturingProperty with source textures in a random subset of the ten slots
 	bool modelSpace = false;         // SK/SSE: shaders use model-space normals (cloning / conversion drop normals and tangents then)
 };
 
@@ -54,5 +55,7 @@ ApiModel buildApiModel(uint64_t seed, int variant, const ApiOpts* opts = nullptr
 namespace vf {
 // Applies `n` random public-API edits to a model (renames, shape/vertex/block deletion, added nodes and extra data,
 // texture changes, cloning, explicit sort/prune).  Returns a textual log of the operations.
+// attaches a NiTexturingProperty whose slots (a seeded subset of the ten, never empty) name fresh NiSourceTexture blocks; OB / FO3 models
+void addTexturingProperty(NifFile& nif, NiShape* shape, Rng& rng, const std::vector<std::string>& paths);
 std::string applyRandomEdits(NifFile& nif, Rng& rng, int n);
 } // namespace vf
